@@ -9,5 +9,5 @@ command -v lake >/dev/null 2>&1 || { echo "lake not found on PATH"; exit 1; }
 /venv/bin/python tools/gen_audits.py
 cd lean
 lake build IxaiVerif IxaiVerif.AuditAll IxaiVerif.Driver.Main || echo "setup: some modules do not build on this tree; the checks report which obligations break"
-lake build IxaiVerif.Props.GenBridge IxaiVerif.Props.GenCorollaries IxaiVerif.Props.GenImputer IxaiVerif.Props.GenBatch IxaiVerif.Props.GenNormalize IxaiVerif.Props.GenMV IxaiVerif.Props.GenTree IxaiVerif.Props.GenMeanOutput IxaiVerif.Props.GenInterval IxaiVerif.Props.GenMVCorollaries IxaiVerif.Props.GenImputerCorollaries IxaiVerif.Props.GenTreeImputer || echo "setup: the generated-explainer bridge does not build on this tree (soft tie; see DESIGN.md 0.6)"
+lake build IxaiVerif.Props.GenBridge IxaiVerif.Props.GenCorollaries IxaiVerif.Props.GenImputer IxaiVerif.Props.GenBatch IxaiVerif.Props.GenNormalize IxaiVerif.Props.GenMV IxaiVerif.Props.GenTree IxaiVerif.Props.GenMeanOutput IxaiVerif.Props.GenInterval IxaiVerif.Props.GenMVCorollaries IxaiVerif.Props.GenImputerCorollaries IxaiVerif.Props.GenTreeImputer IxaiVerif.Props.GenRiverLoss || echo "setup: the generated-explainer bridge does not build on this tree (soft tie; see DESIGN.md 0.6)"
 exit 0
